@@ -77,7 +77,9 @@ pub fn replay(path: &str) -> i32 {
     println!("replay kind={} build={} (recorded in build {})", kind, mon::CFG, str_field(&s, "cfg").unwrap_or_default());
     match kind.as_str() {
         "history" => {
-            let mut p = Parser::new();
+          for ctor in 0..2u64 {
+            println!("-- parser obtained with {}", if ctor == 0 { "AisParser::new()" } else { "AisParser::default()" });
+            let mut p = Parser::with_ctor(ctor);
             let mut m = Reasm::new();
             for (i, (l, d)) in all_lines(&s).iter().enumerate() {
                 let sc = nmea_ref::scan(l);
@@ -105,6 +107,7 @@ pub fn replay(path: &str) -> i32 {
                 println!("   reference: {}", exp);
                 println!("   observed : {}", obs);
             }
+          }
             0
         }
         "message" | "unarmor" => {
